@@ -408,6 +408,19 @@ def h_thread(n):
         else:
             ok = r is not None and r[1] == M - e[1] and r[0] == {ig.VERTEX_polya: ig.VERTEX_polyt, ig.VERTEX_read_end: ig.VERTEX_read_start}.get(e[0], None)
         g.check(IMPLIES(near <= 1, ok), "thread_starts on the mirror image = mirror of thread_ends", detail=dict(det, mirrored_result=r))
+        # one processor, one intron with vertices on BOTH sides (a mono-intronic read asks for its end and then for its start):
+        # the start it is threaded to must not depend on the end query made before
+        sk = g.choice("start_vertex_kind", 2)
+        spos = g.int("start_vertex_pos", 2000, 4998)
+        inc = [((ig.VERTEX_polyt if sk == 0 else ig.VERTEX_read_start), spos)]
+        start = g.int("read_start", 1500, 4999)
+        both = processor({intron: ListSet(fwd)}, {intron: ListSet(inc)})
+        call(g, both.thread_ends, intron, end, trusted)
+        r1 = call(g, both.thread_starts, intron, start, trusted)
+        r2 = call(g, processor({intron: ListSet(fwd)}, {intron: ListSet(inc)}).thread_starts, intron, start, trusted)
+        eq = (r1 is None and r2 is None) or (r1 is not None and r2 is not None and r1[0] == r2[0] and r1[1] == r2[1])
+        g.check(eq, "the start vertex a read is threaded to does not depend on the end query made before on the same processor",
+                detail={"after_end_query": r1, "fresh": r2})
     return fn
 
 
